@@ -188,6 +188,16 @@ theorem wrapO_refines (kd : Kind) (s : St) (hi : InvO kd s) (c : OCall) (hl : c.
     exact ⟨by first | trivial | rfl, hi.put c _ h2⟩
   | compare => simp only [wrapO, OCall.spec, wCmp_eq]; exact ⟨by first | trivial | rfl, hi⟩
   | contents c => simp only [wrapO, OCall.spec]; exact ⟨by first | trivial | rfl, hi⟩
+  | rcontents c => simp only [wrapO, OCall.spec]; exact ⟨by first | trivial | rfl, hi⟩
+  | constructRange c ys =>
+    obtain ⟨e, h2⟩ := insertMany_eq kd true ys [] (sortedK_nil _)
+    simp only [wrapO, OCall.spec, e]
+    exact ⟨by first | trivial | rfl, hi.put c _ h2⟩
+  | constructList c ys =>
+    obtain ⟨e, h2⟩ := insertMany_eq kd false ys [] (sortedK_nil _)
+    simp only [wInsertMany, Bool.false_eq_true, if_false] at e
+    simp only [wrapO, OCall.spec, e]
+    exact ⟨by first | trivial | rfl, hi.put c _ h2⟩
 
 /-- **whole histories**, from any pair of sorted containers -/
 theorem runWrapO_eq (kd : Kind) (cs : List OCall) : ∀ (s : St), InvO kd s → OCall.legalFrom kd s cs = true →
